@@ -230,11 +230,13 @@ def write_evidence(pid, tier, seed, spec, records, violations, known_hits, incon
                 evaluations += r.total
                 queries += 1
                 solver_s += r.solver_s
-                if cls["verdict"] in ("held", "sanity_ok") and r.status in ("success", "failed"):
-                    # a query is non-trivial when it proved >=1 reachable property assertion or
-                    # is a vacuity witness that came back violated; distinct by harness name
-                    if (u.expect == "fail") or ok_tagged:
-                        nontrivial += 1
+                if r.status in ("success", "failed"):
+                    # distinct = (harness, assertion text) pairs; non-trivial = tagged with this property,
+                    # reachable and proved; a vacuity witness that came back violated counts once
+                    if u.expect == "fail":
+                        nontrivial += 1 if cls["verdict"] == "sanity_ok" else 0
+                    else:
+                        nontrivial += len(set(c[2] for c in ok_tagged))
             if cls["reasons"]:
                 s["reasons"] = cls["reasons"]
             if cls.get("other_props"):
@@ -255,8 +257,8 @@ def write_evidence(pid, tier, seed, spec, records, violations, known_hits, incon
             evaluations=evaluations,
             distinct_nontrivial=nontrivial,
             rule=("evaluations = verification conditions (CBMC properties + SMT queries) decided by the solver in this run; "
-                  "distinct_nontrivial = distinct solver queries (Kani harnesses by name, SMT obligations by name) that "
-                  "proved at least one *reachable* assertion tagged with this property, or vacuity witnesses that came back violated"),
+                  "distinct_nontrivial = distinct (harness, assertion) pairs whose assertion is tagged with this property, was reachable and "
+                  "was proved by the solver, plus SMT obligations proved (unsat on both solvers), plus vacuity witnesses that came back violated"),
             samples=samples,
             solver_queries=queries,
             solver_time_s=round(solver_s, 2),
